@@ -260,6 +260,32 @@ fn judge_case(case: Case, t: &mut Tape, rc: &mut RCase) -> Result<(), Failure> {
     if !d.is_valid {
         return Err(Failure::new("is_valid_false", String::new(), rendered()));
     }
+    // the protocol parameters are a public field of the compiler: an instance whose parameters were replaced
+    // after it compiled this template compiles it like a fresh instance with the new parameters (other network,
+    // other cost models) - nothing computed under the old configuration is carried over
+    if hash64(&(ev.source.as_str(), 77u8)) % 3 == 0 {
+        let cfg2 = Cfg { mainnet: !cfg.mainnet, cost_models: match cfg.cost_models { 0 => 7, m => (m << 1 | m >> 2) & 7 }, ..cfg.clone() };
+        let env = case.env(cfg.slot, cfg.time);
+        if let Ok((again, reference)) = pipeline::compile_after_reconfiguring(&ev.source, &env, &cfg, &cfg2) {
+            rc.label("recompiled_after_reconfiguring");
+            let same = match (&again, &reference) {
+                (Ok(a), Ok(b)) => a.payload == b.payload && a.hash == b.hash && a.fee == b.fee,
+                (Err(_), Err(_)) => true,
+                _ => false,
+            };
+            if !same {
+                let show = |r: &Result<tx3_tir::compile::CompiledTx, pipeline::StageErr>| match r {
+                    Ok(c) => hex::encode(&c.payload),
+                    Err(e) => e.describe(),
+                };
+                return Err(Failure::new(
+                    "reconfigured_instance_differs_from_fresh_one",
+                    format!("instance reconfigured to {:?}: {} ; fresh instance: {}", cfg2, show(&again), show(&reference)),
+                    rendered(),
+                ));
+            }
+        }
+    }
     // reproducible within the process: fresh compilers, rebuilt from the source
     for _ in 0..2 {
         let again = evaluate(&case, &cfg);
